@@ -66,20 +66,35 @@ Definition client_subnet (cip : bytes) : option ecs :=
 (* ---- request ---- *)
 Record dreq := mkDreq {
   d_method : bytes; d_values : list bytes; d_body : bytes; d_limit : Z;   (* limit = maxPostMsgLength, > 0 *)
-  d_remote : bytes; d_client : option bytes }.
-Definition client_ip (q : dreq) : bytes := match d_client q with Some c => c | None => d_remote q end.
+  d_fail : option Z;             (* Some k: the body reader delivers the first k bytes (k <= |body|) and then fails,
+                                    e.g. io.ErrUnexpectedEOF for a body shorter than Content-Length; None: clean EOF *)
+  d_remote : option bytes;       (* Request.RemoteAddr (None = nil) *)
+  d_client : option bytes }.     (* Request.ClientAddr *)
+(* setClientSubnet: nothing is added without RemoteAddr; otherwise ClientAddr wins over RemoteAddr *)
+Definition client_ip (q : dreq) : option bytes :=
+  match d_remote q with
+  | None => None
+  | Some r => Some (match d_client q with Some c => c | None => r end)
+  end.
 
+(* requestToMsgPost: ioutil.ReadAll(io.LimitedReader{R: body, N: limit}).  The limited reader stops asking after
+   limit bytes, so a reader failure is seen only if it happens before limit bytes were delivered. *)
+Definition post_buffer (q : dreq) : option bytes :=
+  match d_fail q with
+  | Some k => if k <? d_limit q then None else Some (firstn (Z.to_nat (d_limit q)) (d_body q))
+  | None => Some (firstn (Z.to_nat (d_limit q)) (d_body q))          (* silent truncation *)
+  end.
 (* the buffer handed to unpackMsg; None = rejected before parsing *)
 Definition code_buffer (q : dreq) : option bytes :=
   if bytes_eqb (d_method q) s_GET then
     match d_values q with [v] => b64url_decode v | _ => None end
-  else if bytes_eqb (d_method q) s_POST then
-    Some (firstn (Z.to_nat (d_limit q)) (d_body q))          (* io.LimitedReader: silent truncation *)
+  else if bytes_eqb (d_method q) s_POST then post_buffer q
   else None.
 
 Inductive dres :=
 | Rejected                       (* RequestToDnsMsg returned an error *)
 | PackFails                      (* the resulting message cannot be packed (bad client address length) *)
+| ForwardedPlain (canon : bytes) (nextra nopt : Z)      (* RemoteAddr nil: the parsed message, nothing added *)
 | Forwarded (canon : bytes) (nextra nopt : Z) (udp ttl : Z) (e : ecs).
    (* forwarded: parsed client message (canonical bytes) with one more additional record: an OPT RR named ".",
       UDP size udp, TTL ttl, one option = e; nextra / nopt count the additional / OPT records of the result *)
@@ -91,23 +106,30 @@ Definition request_to_dns_msg (o : oracle) (q : dreq) : dres :=
     match unpack o buf with
     | None => Rejected
     | Some p =>
-      match client_subnet (client_ip q) with
-      | None => PackFails
-      | Some e =>
-        (* miekg Pack: Rcode > 15 => the LAST OPT RR (the appended one) receives the extended rcode in its TTL *)
-        let ttl := if 15 <? p_rcode p then (p_rcode p / 16) mod 256 * 2 ^ 24 else 0 in
-        Forwarded (p_canon p) (p_nextra p + 1) (p_nopt p + 1) 4096 ttl e
+      match client_ip q with
+      | None => ForwardedPlain (p_canon p) (p_nextra p) (p_nopt p)
+      | Some cip =>
+        match client_subnet cip with
+        | None => PackFails
+        | Some e =>
+          (* miekg Pack: Rcode > 15 => the LAST OPT RR (the appended one) receives the extended rcode in its TTL *)
+          let ttl := if 15 <? p_rcode p then (p_rcode p / 16) mod 256 * 2 ^ 24 else 0 in
+          Forwarded (p_canon p) (p_nextra p + 1) (p_nopt p + 1) 4096 ttl e
+        end
       end
     end
   end.
 
 (* ================= specification ================= *)
-(* the client's DNS message bytes: the whole POST body (if not oversized) or the decoded dns= parameter *)
+(* the client's DNS message bytes: the whole POST body (if complete and not oversized) or the decoded dns= parameter *)
 Definition client_message (q : dreq) : option bytes :=
   if bytes_eqb (d_method q) s_GET then
     match d_values q with [v] => b64url_decode v | _ => None end
   else if bytes_eqb (d_method q) s_POST then
-    if blen (d_body q) <=? d_limit q then Some (d_body q) else None          (* oversized => must be rejected *)
+    match d_fail q with
+    | Some _ => None                                                        (* incomplete body => must be rejected *)
+    | None => if blen (d_body q) <=? d_limit q then Some (d_body q) else None   (* oversized => must be rejected *)
+    end
   else None.
 Definition is_ipv4 (ip : bytes) : bool := match to4 ip with Some _ => true | None => false end.
 (* the option required for a client address *)
@@ -125,24 +147,32 @@ Definition doh_spec (o : oracle) (q : dreq) (r : dres) : bool :=
     match unpack o buf with
     | None => match r with Rejected => true | _ => false end               (* malformed => rejected *)
     | Some p =>
-      match r with
-      | Forwarded canon nextra nopt _ _ e =>
+      match client_ip q, r with
+      | Some cip, Forwarded canon nextra nopt _ _ e =>
         bytes_eqb canon (p_canon p) && (nextra =? p_nextra p + 1)            (* message preserved + one record *)
         && (nopt =? 1)                                                       (* exactly one OPT RR (RFC 6891 6.1.1) *)
-        && ecs_matches (client_ip q) e
-      | _ => false
+        && ecs_matches cip e
+      | None, ForwardedPlain canon nextra nopt =>                            (* no address known: message as is *)
+        bytes_eqb canon (p_canon p) && (nextra =? p_nextra p) && (nopt =? p_nopt p)
+      | _, _ => false
       end
     end
   end.
 
 (* known finding classes *)
-(* 1: POST body longer than the limit whose truncated prefix still parses: forwarded truncated *)
+(* 1: POST body longer than the limit - or whose reader fails only after limit bytes - whose first limit bytes still
+   parse: forwarded truncated *)
 Definition kf_truncated (o : oracle) (q : dreq) : bool :=
-  bytes_eqb (d_method q) s_POST && (d_limit q <? blen (d_body q))
+  bytes_eqb (d_method q) s_POST
+  && ((d_limit q <? blen (d_body q)) || match d_fail q with Some k => d_limit q <=? k | None => false end)
   && match unpack o (firstn (Z.to_nat (d_limit q)) (d_body q)) with Some _ => true | None => false end.
 (* 2: the client's message already carries an OPT RR: a second OPT RR is appended *)
 Definition kf_second_opt (o : oracle) (q : dreq) : bool :=
-  match client_message q with
-  | Some buf => match unpack o buf with Some p => negb (p_nopt p =? 0) | None => false end
+  match client_ip q with
   | None => false
+  | Some _ =>
+    match client_message q with
+    | Some buf => match unpack o buf with Some p => negb (p_nopt p =? 0) | None => false end
+    | None => false
+    end
   end.
